@@ -27,6 +27,18 @@ CHECKS = {
             "one-shot keys; edge-cover replay binds L1 to the code; random schedules and a 20-fold stacked burst are recorded "
             "from the code and validated by TLC against P_C06.",
             "5 C06", TECH, BOUNDS + "; one-shot stack bounded to 3 in the exhaustive instances"),
+    "C02": ("exploration",
+            "Every accepted configuration is run in watched worker subprocesses (panic, abort, stack overflow, a step over the watchdog or "
+            "an error returned to the loop = violation; replay = config + history): targeted reproducers and capacity floods, every atom/list "
+            "action in every context (nesting 2), random configurations over the whole action grammar x arbitrary / consistent / flood "
+            "histories over all mapped codes, sweeps of press/repeat/release/tap over all existing key codes. Model-checked sub-claims: TLC "
+            "explores L1 (Layout.tla + ChordsV2.tla, every panic site an explicit guarded branch) with scaled-down capacities under the "
+            "arbitrary environment and each reachable site's witnesses are scaled to the real capacities and executed; TLC checks "
+            "spec/Contracts.tla (parser guarantee => run-time precondition over boundary values), the real parser's accept/reject decision "
+            "is compared with the table and every accepted value is executed.",
+            "5 C02", "exploration on the real code driven by TLC-found capacity witnesses and a TLC-checked parser/run-time contract table",
+            "exploration (no proof over all configurations); capacity instances depth-bounded (quick 5-18 events, <= 35k states each); dev "
+            "profile; inputs restricted to mapped codes; 2 s per-step watchdog confirmed by a second run; cmd/clipboard/push-msg/lrld-file excluded"),
     "C03": ("exploration",
             "TLC enumerates structure-aware mutations of a seed corpus of real configurations (spec/CfgMutate.tla: all single "
             "mutations at all sites, bounded double mutations) and a grammar sweep (spec/CfgGrammar.tla), and states the allowed "
@@ -39,6 +51,15 @@ CHECKS = {
             "TLC model of the lexer with exhaustive conformance on short strings",
             "exploration over texts (no proof over all texts); seed corpus = cfg_samples, docs, parser tests; 12-symbol lexer alphabet; "
             "3 s watchdog per text; dev-profile build"),
+    "C08": ("model_checking",
+            "TLC enumerates the macro-body grammar and compares the real parser's SequenceEvent list of every body with "
+            "P_C08!MacroExpand (written from the docs); TLC checks L1 against the macro monitor P_C08 (exact step order per "
+            "activation, one step per tick, stated delays, completion, cancellation takes effect and releases on time, repeat "
+            "only while held, nothing left down when idle / when the loop may block) for every schedule within the instance "
+            "bounds, all 8 variants, cancellation at every step index; edge-cover replay binds L1 to the code; model-level "
+            "witnesses, random schedules, cancellation sweeps and bursts of 4-6 concurrent macros are recorded from the code "
+            "and validated by TLC against P_C08.",
+            "5 C08", TECH, BOUNDS),
     "C10": ("translation_validation",
             "The programs are switch conditions / case lists written as configuration text. TLC enumerates every expression shape "
             "up to the node bound over leaf triples and every truth assignment, evaluates the documented meaning (Switch.tla Denote / "
